@@ -94,7 +94,7 @@ class ScopeMetrics:
         *,
         merge: Callable[[State | Missing, State], State | Missing] | None = None,
     ) -> list[State]:
-        if not merge:
+        if merge is None:
             return list(self._metrics.values())
 
         metrics: dict[type[State], State] = copy(self._metrics)
@@ -145,7 +145,7 @@ class ScopeMetrics:
     ) -> None:
         assert not self._completed.done(), "Can't record using completed metrics scope"  # nosec: B101
         metric_type: type[Metric] = type(metric)
-        if current := self._metrics.get(metric_type):
+        if (current := self._metrics.get(metric_type)) is not None:
             self._metrics[metric_type] = merge(cast(Metric, current), metric)
 
         else:
